@@ -422,6 +422,7 @@ func updateResOne(res Resolver, rel UniRel) []UniRel {
 }
 
 func updateResolver(res Resolver, rels []UniRel) Resolver {
+	verifTraceRound(res, rels)
 	nrels := frt.Pipe(frt.Pipe(rels, (func(_r0 []UniRel) [][]UniRel {
 		return slice.Map((func(_r0 UniRel) []UniRel { return updateResOne(res, _r0) }), _r0)
 	})), slice.Concat)
